@@ -459,7 +459,7 @@ func genSkInput(r *Rng, nfn *int, known []*fdef, budget int) (skInput, []*fdef) 
 
 // ------------------------------------------------------------------ running sessions
 
-const prelude = `func deep(n){deep(n+1)}; acc=0; zz=0; mset = macro(nm, val){quote(unquote(nm) = unquote(val))}; func id1(x){x}; idl = x => x; func dec1(x){x-1}; mobj = {"f": x => x*2}`
+const prelude = `func deep(n){deep(n+1)}; acc=0; zz=0; mset = macro(nm, val){quote(unquote(nm) = unquote(val))}; func each(t,f){ r:=[]; for i=len(t){ r = r+[[f(t[i]),i]] }; r }; func times(n,f){ t=0; for k=n { t = t + f(k)*10 + k }; t }; func va(n){s=0; for i=n {s = s + vb(i)*7 + i}; s}; func vb(n){if n<=0 {return 1}; va(n-1)+n}; func id1(x){x}; idl = x => x; func dec1(x){x-1}; mobj = {"f": x => x*2}`
 
 // number of on/off differences outside the known constructs seen so far: after a few dozen the
 // exploration stops early (the violation is established; under a broken tree each one may cost a deadline)
@@ -978,9 +978,47 @@ func (g *vgen) macroInput() string {
 	return fmt.Sprintf("%s = macro(z){ %s; quote(unquote(z) + %s) }; %s", m, defs, strings.TrimPrefix(q, "quote"), use)
 }
 
+// the same counted loop (one AST node) active twice at once: higher-order functions with a counted loop called
+// re-entrantly through callbacks, and mutual recursion; the loop variable is read after the inner call returns
+func (g *vgen) reentrantInput() string {
+	list := func(depth int) string {
+		var rec func(d int) string
+		rec = func(d int) string {
+			n := 1 + g.r.Intn(3)
+			var el []string
+			for i := 0; i < n; i++ {
+				if d > 0 {
+					el = append(el, rec(d-1))
+				} else {
+					el = append(el, fmt.Sprint(g.r.Intn(9)))
+				}
+			}
+			return "[" + strings.Join(el, ",") + "]"
+		}
+		return rec(depth)
+	}
+	switch g.r.Intn(6) {
+	case 0:
+		return fmt.Sprintf("each(%s, x=>each(x, y=>y*%d+1))", list(1), 2+g.r.Intn(9))
+	case 1:
+		return fmt.Sprintf("each(%s, x=>each(x, y=>each(y, z=>z+%d)))", list(2), g.r.Intn(9))
+	case 2:
+		return fmt.Sprintf("each(%s, x=>len(each(%s, y=>x+y)) + x)", list(0), list(0))
+	case 3:
+		return fmt.Sprintf("times(%d, a=>times(a+%d, b=>a*b+%d))", 1+g.r.Intn(4), g.r.Intn(3), g.r.Intn(5))
+	case 4:
+		return fmt.Sprintf("println(va(%d), vb(%d)); times(%d, a=>va(a))", 1+g.r.Intn(5), 1+g.r.Intn(5), 1+g.r.Intn(4))
+	default:
+		return fmt.Sprintf("for tv0=%d {println(tv0, each(%s, x=>times(x+tv0, b=>b+tv0)), tv0)}", 1+g.r.Intn(3), list(0))
+	}
+}
+
 func (g *vgen) input() string {
 	if g.r.Pct(8) {
 		return g.macroInput()
+	}
+	if g.r.Pct(8) {
+		return g.reentrantInput()
 	}
 	var parts []string
 	nf := g.r.Intn(3)
@@ -1030,6 +1068,7 @@ var gapCorpus = []struct {
 	{"loopvar-after-loop", []string{`for i=0:3{}`, `i`}, 1},
 	{"loopvar-coincides-outer", []string{`i=10;for i=0:3{};i`}, 0},
 	{"loopvar-coincides-outer", []string{`k=5;func f(){for k=0:3{}};f();k`}, 0},
+	{"loopvar-coincides-outer", []string{`func rs(n){s=0; for i=n { s = s + rs(i) + i }; s+1}; rs(3)`}, 0},
 	{"loopvar-read-by-callee", []string{`func g(){i};for i=0:3{println(g())}`}, 0},
 	{"name-read-by-eval-string", []string{`func f(n){eval("n")};f(3)`}, 0},
 	{"name-assigned-by-eval-string", []string{`func f(n){eval("n = 9"); n};f(3)`}, 0},
@@ -1053,6 +1092,7 @@ var fixedCorpus = [][]string{
 	{`func f(n){{n:print("a"), n:print("b")}};f(1)`}, {`for n=0:2{println({n:1, n:2})}`},
 	{`m={1:"a",2:"b",3:"c",4:"d",5:"e"}; for i=1:6 {print(m[i])}`}, {`m={1:"a",2:"b",3:"c",4:"d",5:"e"}; f=func(k){m[k]}; f(3)`},
 	{`m={1:"a",2:"b",3:"c",4:"d",5:"e"}; for i=1:3 {del(m[i])}; m`}, {`func f(k){[[k] == [3], [k] < [4], {k:1}]}; f(3)`},
+	{`each([[1,2],[3],[4,5,6]], x=>each(x, y=>y*10))`}, {`println(va(4), vb(3))`}, {`times(3, a=>times(a+1, b=>a*b))`},
 	{`func f(n){ func n(){1}; n }; f(5)`}, {`for i=3 { func i(){7}; println(i) }`}, {`func f(n){ g = func(n){n*2}; [g(3), n] }; f(5)`},
 	{`func f(n){ mset(n, 9); n }; f(5)`}, {`func f(n){[10,11,12,13,14,15][n:(n=4)]}; f(1)`}, {`func f(n){for k=[1,2,3]{if k==3{n=100;break};n}}; f(5)`},
 	{`func f(n){w=0; for w<3 {w=w+1; if w==3 {n=100; continue}; n}}; f(5)`},
